@@ -171,9 +171,9 @@ func c20Replacements() []struct {
 }
 
 func TestC20_EnvelopeGrid(t *testing.T) {
-	st := NewStats("C20", "TestC20_EnvelopeGrid", "enumeration with the independent encoder around correctly signed material (7 algorithms in thorough, EdDSA+ES256 in quick; both profiles): tag in {none, 0..30, 61, 98, 18 nested twice} x array length 0..6; each of the four elements replaced by 20 other CBOR items and by indefinite-length / over-long-head forms; 2-element replacement pairs; 18 payload variants (raw map, double-wrapped, null, h'', h'f6', h'f7', array, int, text, tagged map, map+trailing, two maps, truncated map, ...) plus 19 tag numbers of every head width (incl. numbers whose last byte looks like a map head) x 8 tagged contents (null, undefined, array, int, bstr, text, map, tagged null); 0..3 trailing bytes; the correct envelope in 13 text transport encodings (base64 in four alphabets, hex, data URI, base32, diagnostic notation, ...); 14 content-type / typ header values in either bucket x 6 payloads (claims as JSON text, '{}', 'null', base64 / hex of the claims, the claims map) each correctly signed; non-minimal tag/array heads; the TF-M Mac0 and Sign1 vectors and their tag-swapped variants. Every envelope is also given to Evidence objects with a past (decoded a good token / had claims attached / signed, possibly followed by a failed decode of garbage, a Mac0, a truncated token, a non-map payload), which must agree with a fresh decode. Oracle: DecodeEvidenceFromCOSE / UnmarshalCOSE success implies the independent classifier sees tag 18, 4-array, bstr, map, bstr holding exactly one map item, non-empty bstr, no trailing bytes. Non-trivial = still parses as CBOR and differs from a valid envelope in exactly one structural respect; distinct = grid cell")
+	st := NewStats("C20", "TestC20_EnvelopeGrid", "enumeration with the independent encoder around correctly signed material (7 algorithms in thorough, EdDSA+ES256 in quick; both profiles): tag in {none, 0..30, 61, 98, 18 nested twice} x array length 0..6; each of the four elements replaced by 20 other CBOR items and by indefinite-length / over-long-head forms; 2-element replacement pairs; 18 payload variants (raw map, double-wrapped, null, h'', h'f6', h'f7', array, int, text, tagged map, map+trailing, two maps, truncated map, ...) plus 19 tag numbers of every head width (incl. numbers whose last byte looks like a map head) x 8 tagged contents (null, undefined, array, int, bstr, text, map, tagged null); 0..3 trailing bytes; well-formed messages of the other COSE kinds around the same material (COSE_Sign with 0/1/2 signers incl. a correctly computed one, Mac0, Mac, Encrypt0, Encrypt, Sign1 with a counter-signature element) under 8 tags; the correct envelope in 13 text transport encodings (base64 in four alphabets, hex, data URI, base32, diagnostic notation, ...); 14 content-type / typ header values in either bucket x 6 payloads (claims as JSON text, '{}', 'null', base64 / hex of the claims, the claims map) each correctly signed; non-minimal tag/array heads; the TF-M Mac0 and Sign1 vectors and their tag-swapped variants. Every envelope is also given to Evidence objects with a past (decoded a good token / had claims attached / signed, possibly followed by a failed decode of garbage, a Mac0, a truncated token, a non-map payload), which must agree with a fresh decode. Oracle: DecodeEvidenceFromCOSE / UnmarshalCOSE success implies the independent classifier sees tag 18, 4-array, bstr, map, bstr holding exactly one map item, non-empty bstr, no trailing bytes. Non-trivial = still parses as CBOR and differs from a valid envelope in exactly one structural respect; distinct = grid cell")
 	st.Exhaustive = true
-	st.Require = []string{"accepted", "rejected", "tag", "arity", "element", "payload", "trailing", "vector", "transcoded", "header-x-payload"}
+	st.Require = []string{"accepted", "rejected", "tag", "arity", "element", "payload", "trailing", "vector", "transcoded", "header-x-payload", "cose-kind"}
 	defer st.Flush(t)
 	accepted := 0
 	run := func(desc, class string, tok []byte, nontrivial bool) {
@@ -360,6 +360,41 @@ func TestC20_EnvelopeGrid(t *testing.T) {
 				e[2] = icbor.Bstr(pl)
 				e[3] = icbor.Bstr(sigOver(pl))
 				run(pre+"payload="+name, "payload", icbor.Encode(icbor.Tag(18, icbor.Arr(e...))), true)
+			}
+			// well-formed messages of the OTHER COSE kinds around the same
+			// material: COSE_Sign with one / two / no signers (signature taken
+			// from the Sign1 token, and computed for the COSE_Sign context),
+			// COSE_Mac0, COSE_Mac, COSE_Encrypt0, COSE_Encrypt - tagged and
+			// untagged
+			{
+				signer := func(sg []byte) *icbor.Node { return icbor.Arr(icbor.Bstr(prot), icbor.Map(), icbor.Bstr(sg)) }
+				// Sig_structure for COSE_Sign: ["Signature", body_protected, sign_protected, external_aad, payload]
+				tbs := icbor.Encode(icbor.Arr(icbor.Tstr("Signature"), icbor.Bstr(nil), icbor.Bstr(prot), icbor.Bstr(nil), icbor.Bstr(claims)))
+				msig, merr := icose.SignTBS(alg, kp.Priv, tbs)
+				if merr != nil {
+					t.Fatalf("VERIF-INFRA: %v", merr)
+				}
+				kinds := map[string]*icbor.Node{
+					"sign-1-signer":          icbor.Arr(icbor.Bstr(nil), icbor.Map(), icbor.Bstr(claims), icbor.Arr(signer(msig))),
+					"sign-1-signer-sign1sig": icbor.Arr(icbor.Bstr(prot), icbor.Map(), icbor.Bstr(claims), icbor.Arr(signer(sig))),
+					"sign-2-signers":         icbor.Arr(icbor.Bstr(nil), icbor.Map(), icbor.Bstr(claims), icbor.Arr(signer(msig), signer(sig))),
+					"sign-0-signers":         icbor.Arr(icbor.Bstr(prot), icbor.Map(), icbor.Bstr(claims), icbor.Arr()),
+					"sign-signer-not-array":  icbor.Arr(icbor.Bstr(prot), icbor.Map(), icbor.Bstr(claims), icbor.Arr(icbor.Bstr(sig))),
+					"mac0":                   icbor.Arr(icbor.Bstr(prot), icbor.Map(), icbor.Bstr(claims), icbor.Bstr(sig[:32])),
+					"mac-1-recipient":        icbor.Arr(icbor.Bstr(prot), icbor.Map(), icbor.Bstr(claims), icbor.Bstr(sig[:32]), icbor.Arr(icbor.Arr(icbor.Bstr(nil), icbor.Map(), icbor.Bstr(nil)))),
+					"encrypt0":               icbor.Arr(icbor.Bstr(prot), icbor.Map(), icbor.Bstr(claims)),
+					"encrypt-1-recipient":    icbor.Arr(icbor.Bstr(prot), icbor.Map(), icbor.Bstr(claims), icbor.Arr(icbor.Arr(icbor.Bstr(nil), icbor.Map(), icbor.Bstr(nil)))),
+					"sign1-with-countersig":  icbor.Arr(icbor.Bstr(prot), icbor.Map(icbor.P(icbor.U(7), signer(msig))), icbor.Bstr(claims), icbor.Bstr(sig), icbor.Arr(signer(msig))),
+				}
+				for name, body := range kinds {
+					for _, tg := range []int{-1, 98, 97, 96, 17, 16, 18, 19} {
+						var node *icbor.Node = body
+						if tg >= 0 {
+							node = icbor.Tag(uint64(tg), body)
+						}
+						run(fmt.Sprintf("%scose-kind=%s/tag%d", pre, name, tg), "cose-kind", icbor.Encode(node), true)
+					}
+				}
 			}
 			// the (correct) envelope in a TEXT transport encoding: base64 in its
 			// four alphabets / paddings, hex, with line breaks or a data: prefix
